@@ -87,4 +87,13 @@ theorem recalc_amount_is_source (e : Env) (years : List Year) (c : Cache) (h : I
       exact h1.symm
   · cases hr
 
+/-- `getCycleNo` as a whole function (all three results at once) is the model's cycle arithmetic -/
+theorem getCycleNo_is_source (o : Opts) (h : Int) :
+    Funcs.rewardGetCycleNo h o.cycle = (cycleNo o h, firstInCycle o h, lastInCycle o h) := by
+  unfold Funcs.rewardGetCycleNo cycleNo firstInCycle lastInCycle
+  simp only [Prod.mk.injEq, true_and]
+  constructor
+  · by_cases h1 : Int.tmod (h - 1) o.cycle = 0 <;> simp [h1]
+  · by_cases h2 : Int.tmod h o.cycle = 0 <;> simp [h2]
+
 end OLP.Props.C13
